@@ -216,6 +216,22 @@ class SimQueue:
         self.sched.record(f"{self.name}.get_nowait", self._show(item))
         return item
 
+    def empty(self):
+        self.sched.visible(f"{self.name}.empty")
+        self.sched.record(f"{self.name}.empty", int(not self.items))
+        return not self.items
+
+    def full(self):
+        self.sched.visible(f"{self.name}.full")
+        self.sched.record(f"{self.name}.full", int(self._full()))
+        return self._full()
+
+    def put_nowait(self, item):
+        return self.put(item, block=False)
+
+    def get_nowait(self):
+        return self.get(block=False)
+
     def qsize(self):
         self.sched.visible(f"{self.name}.qsize")
         n = len(self.items)
